@@ -49,7 +49,8 @@ def main():
         runs = list(range(n))
         a = pool_digests(prop, spec, seed, runs, 4, False, 8)
         b = pool_digests(prop, spec, seed, runs, 16, True, 3)
-        diff = [r for r in runs if a.get(r) != b.get(r)]
+        # a chunk stops at its first violation: compare the runs both pools actually executed
+        diff = [r for r in runs if r in a and r in b and a[r] != b[r]]
         fresh_runs = runs[:: max(1, n // nfresh)][:nfresh]
         envv = dict(os.environ); envv['VERIF_HASHSEED'] = '12345'; envv.pop('VERIF_ENV_PINNED', None)
         envv['PYTHONHASHSEED'] = '12345'
@@ -61,7 +62,7 @@ def main():
             if line.startswith('DIGEST'):
                 _, _, _, r, d, *_ = line.split()
                 c[int(r)] = d
-        diff_fresh = [r for r in fresh_runs if c.get(r) != a.get(r)]
+        diff_fresh = [r for r in fresh_runs if r in a and c.get(r) != a[r]]
         ok = not diff and not diff_fresh
         print(f'determinism {prop}: {n} runs x2 pools, {len(fresh_runs)} fresh-interpreter/other-hashseed: '
               f'{"OK" if ok else "DIVERGED"} pool_diff={diff[:5]} fresh_diff={diff_fresh[:5]}', flush=True)
